@@ -1,6 +1,7 @@
 package main
 
 import (
+	"bufio"
 	"bytes"
 	"encoding/binary"
 	"encoding/hex"
@@ -283,6 +284,31 @@ func (w *recWriter) Write(p []byte) (int, error) {
 	return n, fmt.Errorf("write fault")
 }
 
+// kindEncode: Encode of a freshly built File into a plain io.Writer or through a bufio.Writer
+func kindEncode(dump string, arch binary.ByteOrder, kind string) (got []byte, ok bool) {
+	f, err := buildFile(dump)
+	if err != nil {
+		return nil, false
+	}
+	defer func() {
+		if r := recover(); r != nil {
+			got, ok = nil, false
+		}
+	}()
+	w := &recWriter{left: 1 << 40}
+	if kind == "bufio" {
+		bw := bufio.NewWriterSize(w, 64)
+		if err := fit.Encode(bw, f, arch); err != nil || bw.Flush() != nil {
+			return nil, false
+		}
+		return w.got, true
+	}
+	if err := fit.Encode(w, f, arch); err != nil {
+		return nil, false
+	}
+	return w.got, true
+}
+
 // faultEncode: Encode of a freshly built File into a writer that fails after k bytes; ok reports
 // that Encode returned nil (panics count as not-ok: C05's other sets look at those)
 func faultEncode(dump string, arch binary.ByteOrder, k int) (got []byte, ok bool) {
@@ -324,6 +350,14 @@ func init() {
 			}
 			if got, ok := faultEncode(a[1], archOf(a[0]), k); ok && !bytes.Equal(got, b) {
 				return fmt.Sprintf("fault-swallowed writer-failed-after=%d received=%d of=%d", k, len(got), len(b))
+			}
+		}
+		// the same File into writers of other concrete types: a writer that is nothing but an io.Writer
+		// and a bufio.Writer (the buffer above is a bytes.Buffer, which also has WriteString, WriteByte
+		// and ReadFrom) receive the same bytes
+		for _, kind := range []string{"plain", "bufio"} {
+			if got, ok := kindEncode(a[1], archOf(a[0]), kind); !ok || !bytes.Equal(got, b) {
+				return fmt.Sprintf("writer-kind-differs kind=%s ok=%v received=%d of=%d", kind, ok, len(got), len(b))
 			}
 		}
 		return res
